@@ -169,6 +169,18 @@ def extra_cases(quick):
     return out
 
 
+def _last_alternative(aspec):
+    """PyTree[Union[.., X], ..] / PyTree[Optional[Union[.., X]], ..] -> the same annotation with X alone."""
+    if aspec[0] != "pytree" or len(aspec) < 2:
+        return None
+    L = aspec[1]
+    if L[0] == "opt" and L[1][0] == "union":
+        return ["pytree", ["opt", L[1][1][-1]]] + list(aspec[2:])
+    if L[0] == "union":
+        return ["pytree", L[1][-1]] + list(aspec[2:])
+    return None
+
+
 def _probe_battery(adapter, Float, Duck):
     """Non-binding public read of the single-axis bindings: 'n+0' is True/False when
     n is bound and AnnotationError when it is not; never binds."""
@@ -241,6 +253,22 @@ def _shard(job):
                             bad = ("idempotence", f"passed, but the immediate repeat answered {again}")
                         elif after2 != after:
                             bad = ("idempotence", f"repeat of a passing check changed the context {after} -> {after2}")
+                        else:
+                            # a check that passed through a LATER alternative of a union: the earlier,
+                            # failed alternatives are failed checks too and must have bound nothing -
+                            # the context must be the one reached with the last alternative alone
+                            alt = _last_alternative(aspec)
+                            if alt is not None:
+                                def twin():
+                                    establish()
+                                    r = adapter.check(specs.build_val(vspec), specs.build_ann(alt))
+                                    return r, adapter.read_state()
+
+                                r_alt, st_alt = adapter.in_context(twin)
+                                if r_alt is True:
+                                    stats["alternatives"] = stats.get("alternatives", 0) + 1
+                                    if not adapter.same_bindings(after, st_alt) or after[2] != st_alt[2]:
+                                        bad = ("failed-alternative-bound", f"passed; context {after}, but checking against the matching alternative alone ({alt}) gives {st_alt}")
                     else:
                         if got is False:
                             stats["rejected"] += 1
@@ -322,6 +350,7 @@ def run(ctx):
         array_cases=len(arr_cases),
         pytree_cases=len(pt_cases),
         fault_cases=len(f_cases),
+        passes_through_a_later_union_alternative_compared_with_that_alternative_alone=stats.get("alternatives", 0),
         dtype_class_and_nested_cases=len(x_cases),
         start_histories=len(STATE_HISTS),
         exhaustive=True,
